@@ -24,6 +24,7 @@ from xsdata.models.datatype import (
     XmlPeriod,
     XmlTime,
 )
+from xsdata.models.enums import Namespace
 from xsdata.utils import collections, namespaces, text
 
 
@@ -592,6 +593,10 @@ class QNameConverter(Converter):
         else:
             prefix, name = text.split(value, ":")
             uri = ns_map.get(prefix) if ns_map else None
+            if prefix == "xml" and not uri:
+                # The xml prefix is bound by definition
+                uri = Namespace.XML.uri
+
             if prefix and not uri:
                 raise ConverterError(f"Unknown namespace prefix: `{prefix}`")
 
